@@ -1,14 +1,71 @@
-(* Props/C06.v -- placeholder until the parser proofs land: entry points agree definitionally. *)
-From JsonSyntax Require Import Base.Prelude Base.Value Base.Unicode Model.Parser Model.EntryPoints.
+(* Props/C06.v -- objects are insertion-ordered multimaps whose key index never goes stale.
+   Statements only.  Model: Model/Object.v (entries + hash index with ghost keys);
+   specification: Spec/Multimap.v (plain list, linear scans). *)
+From JsonSyntax Require Import Base.Prelude Base.Value Model.Compare Model.Object Spec.Multimap
+  Proofs.ObjectInv Proofs.ObjectRefine Proofs.CompareProofs.
+From Coq Require Import Sorting.Permutation.
 
-Theorem C06_entry_points_text : forall cs,
-  parse_str cs = parse_str_with strict cs /\
-  parse_str cs = parse_utf8 cs /\
-  parse_str cs = parse_utf8_with strict cs /\
-  parse_str cs = parse_infallible_utf8 cs /\
-  parse_str cs = parse_utf8_infallible_with strict cs /\
-  parse_str cs = parse (chars cs) /\
-  parse_str cs = parse_with strict (chars cs).
-Proof. exact (fun cs => conj eq_refl (conj eq_refl (conj eq_refl (conj eq_refl (conj eq_refl (conj eq_refl eq_refl)))))). Qed.
+(* For EVERY finite history of operations starting from the empty object: no operation
+   panics, the invariant holds, the entries and every operation result (fresh-key flags,
+   removed entries in order, duplicate errors) are those of the list specification. *)
+Theorem C06_history_refines : forall ops,
+  exists o outs, run ops empty_obj = Some (o, outs) /\ Inv o /\
+                 entries o = fst (spec_run ops []) /\ outs = snd (spec_run ops []).
+Proof. exact history_refines. Qed.
 
-Print Assumptions C06_entry_points_text.
+(* every key-based query on an object satisfying the invariant is a linear scan *)
+Theorem C06_queries_scan : forall o k, Inv o ->
+  contains_key o k = Some (m_contains (entries o) k) /\
+  index_of o k = Some (m_index_of (entries o) k) /\
+  redundant_index_of o k = Some (m_redundant_index_of (entries o) k) /\
+  indexes_of o k = Some (m_indexes_of (entries o) k) /\
+  get o k = Some (m_get (entries o) k) /\
+  get_entries o k = Some (m_get_entries (entries o) k) /\
+  get_entries_with_index o k = Some (m_get_entries_with_index (entries o) k) /\
+  option_map conv_unique (get_unique o k) = Some (m_get_unique (entries o) k) /\
+  option_map conv_unique (get_unique_entry o k) = Some (m_get_unique_entry (entries o) k).
+Proof. exact queries_scan. Qed.
+
+Theorem C06_history_invariant : forall ops o outs, run ops empty_obj = Some (o, outs) -> Inv o.
+Proof. exact history_inv. Qed.
+
+(* bulk construction *)
+Theorem C06_from_vec : forall l, exists o, from_vec l = Some o /\ Inv o /\ entries o = m_from_vec l.
+Proof. exact from_vec_refines. Qed.
+Theorem C06_from_iter : forall l, exists o, from_iter l = Some o /\ Inv o /\ entries o = l.
+Proof. exact from_iter_refines. Qed.
+
+(* sort: the history specification uses insertion sort; it IS a sort of the entries for the
+   entry order (key, then value), whose order laws are proved in CompareProofs *)
+Theorem C06_sort_is_sort : forall es, m_is_sort_of entry_cmp es (fst (spec_step es OpSort)).
+Proof. exact (spec_sort_is_sort entry_cmp_total entry_cmp_le_trans). Qed.
+
+(* in-place mutation of a value keeps the index valid *)
+Theorem C06_set_value : forall o i v, Inv o ->
+  Inv (set_value_at o i v) /\ entries (set_value_at o i v) = m_set_value_at (entries o) i v.
+Proof. exact set_value_at_refines. Qed.
+
+(* duplicate detection over index buckets (used by unordered comparison before repair D) *)
+Theorem C06_contains_duplicate_keys : forall o, Inv o ->
+  (im_contains_duplicate_keys (buckets o) = true <-> exists k, (2 <= length (m_indexes_of (entries o) k))%nat).
+Proof. exact contains_duplicate_keys_refines. Qed.
+
+(* non-vacuity: a concrete history with duplicate keys, front insertion, purge and sort *)
+Example C06_example :
+  let a := [0x61] in let b := [0x62] in let n i := VNum [i] in
+  exists o outs,
+    run [OpPush a (n 0x31); OpPush b (n 0x32); OpPush a (n 0x33); OpPushFront b (n 0x34);
+         OpInsert a (n 0x35); OpRemoveAt 0; OpSort] empty_obj = Some (o, outs)
+    /\ entries o = [(a, n 0x35); (b, n 0x32)]
+    /\ dump o = [[0]; [1]]%nat.
+Proof. vm_compute. repeat eexists. Qed.
+
+Print Assumptions C06_history_refines.
+Print Assumptions C06_queries_scan.
+Print Assumptions C06_history_invariant.
+Print Assumptions C06_from_vec.
+Print Assumptions C06_from_iter.
+Print Assumptions C06_sort_is_sort.
+Print Assumptions C06_set_value.
+Print Assumptions C06_contains_duplicate_keys.
+Print Assumptions C06_example.
